@@ -2,7 +2,8 @@
 
 MC   : MC_GitRepo over GitRepo.tla - all repositories reachable by a bounded number of git
        operations (commit, branch, checkout, detach, ff and no-ff merge, lightweight/annotated
-       tag, tag deletion); sanity of the declarative facts (nearest validly tagged ancestors are
+       tag, tag deletion; in a second exploration also history rewriting: reset --hard,
+       commit --amend, tag -f, which leave commits and tags that no ref reaches); sanity of the declarative facts (nearest validly tagged ancestors are
        pairwise unrelated, distance 0 iff the tag is on HEAD, ...).
 Gen  : one witness operation sequence per distinct repository is replayed with the real git in
        a temp directory (isolated config, explicit commit dates under an increasing /
@@ -18,7 +19,7 @@ import os
 from . import core
 
 
-def cfg(commits, ops, ntags, branches):
+def cfg(commits, ops, ntags, branches, rewrite=False):
     return """SPECIFICATION Spec
 CONSTANTS
   MaxCommits = %d
@@ -27,10 +28,11 @@ CONSTANTS
   TagNames <- MCTagNames
   NTags = %d
   Emit = TRUE
+  Rewrite = %s
 VIEW View
 INVARIANTS FactsSane EmitLine
 CHECK_DEADLOCK FALSE
-""" % (commits, ops, ", ".join('"%s"' % b for b in branches), ntags)
+""" % (commits, ops, ", ".join('"%s"' % b for b in branches), ntags, "TRUE" if rewrite else "FALSE")
 
 
 TRACE_CFG = """SPECIFICATION Spec
@@ -46,17 +48,30 @@ CHECK_DEADLOCK FALSE
 def run(tier):
     v = core.Verdict("C02")
     bounds, stride, sessions = ((3, 4, 4, ["dev"]), 1, 400) if tier == "quick" else ((4, 6, 5, ["dev"]), 6, 6000)
-    r = core.tlc("MC_GitRepo", cfg(*bounds), "c02-mc", workers=12, timeout=14400)
-    core.log("C02: TLC MC_GitRepo %s: %d states, %d distinct repositories, %.1fs" % (bounds[:3], r["states"], r["distinct"], r["wall"]))
-    rep = core.zv(["replay", "gitrepo", r["out_path"], stride], timeout=28800)
-    core.log("  replayed %d repositories into real git, %d observations (%d with merges / several tags / unreachable tags / detached), %d mismatches"
-             % (rep["extra"]["repositories"], rep["evaluations"], rep["nontrivial"], rep["mismatch_count"]))
-    if rep["evaluations"] == 0:
-        raise core.ToolError("nothing generated")
-    v.add(rep["mismatches"])
-    os.remove(r["out_path"])
+    rbounds, rstride = ((3, 4, 3, ["dev"]), 2) if tier == "quick" else ((4, 5, 3, ["dev"]), 4)
+    rep = None
+    states = trans = 0
+    for bnd, strd, rewrite in ((bounds, stride, False), (rbounds, rstride, True)):
+        r = core.tlc("MC_GitRepo", cfg(*bnd, rewrite=rewrite), "c02-mc", workers=12, timeout=14400)
+        core.log("C02: TLC MC_GitRepo %s%s: %d states, %d distinct repositories, %.1fs"
+                 % (bnd[:3], " with reset --hard / commit --amend / tag -f" if rewrite else "", r["states"], r["distinct"], r["wall"]))
+        rp = core.zv(["replay", "gitrepo", r["out_path"], strd], timeout=28800)
+        core.log("  replayed %d repositories into real git, %d observations (%d with merges / several tags / unreachable tags / detached / rewritten history), %d mismatches"
+                 % (rp["extra"]["repositories"], rp["evaluations"], rp["nontrivial"], rp["mismatch_count"]))
+        if rp["evaluations"] == 0:
+            raise core.ToolError("nothing generated")
+        v.add(rp["mismatches"])
+        os.remove(r["out_path"])
+        states += r["distinct"]
+        trans += r["states"]
+        if rep is None:
+            rep = rp
+        else:
+            for f in ("evaluations", "nontrivial"):
+                rep[f] += rp[f]
+            rep["extra"]["repositories"] += rp["extra"]["repositories"]
+            rep["samples"] = rep["samples"][:2] + rp["samples"][:2]
     tev = tbad = 0
-    states, trans = r["distinct"], r["states"]
     per = 200
     for k in range(0, sessions, per):
         path = os.path.join(core.BUILD, "c02-trace-%d.ndjson" % k)
@@ -92,7 +107,8 @@ def run(tier):
                     "%d tag names of {v1.0.0, 1.0.0a1, latest, v2.0.0-rc.1, 1.0.0, v1.1.0} (every %d-th uninteresting state; all "
                     "states with a merge commit, two tags on a commit, a tag unreachable from HEAD or a detached HEAD), each "
                     "observed 7 times (3 formats clean + 4 work-tree kinds). distinct_nontrivial = those interesting states. "
-                    "Trace: %d random sessions." % (bounds[0], bounds[1], bounds[3], bounds[2], stride, sessions),
+                    "A second exploration adds reset --hard, commit --amend and tag -f (<= %d commits, <= %d operations, %d tag names, every %d-th "
+                    "uninteresting state). Trace: %d random sessions (the same operations)." % (bounds[0], bounds[1], bounds[3], bounds[2], stride, rbounds[0], rbounds[1], rbounds[2], rstride, sessions),
                exhaustive=(stride == 1), repositories=rep["extra"]["repositories"], recorded_events=tev)
     return v.finish(tier, "model_checking", cov,
                     ["TLC and the CommunityModules JSON reader", "real git 2.39 as installed, isolated from user/system configuration",
